@@ -54,7 +54,15 @@ MISSED10 = {"C01/2": ENV10 + "every check also runs every 9th unit in an interpr
 NOTCAUGHT10 = {"C10/1": "NOT DETECTED: needs a group that cancels itself from inside its own argument iterator and keeps yielding; C07's quantifier excludes that, the unchanged code itself keeps starting tasks for such a group when no suspension intervenes, so group bookkeeping in that zone is outside what the properties fix (the OWN-ITER family only keeps slot accounting and id density strict there)",
                "C10/2": "NOT DETECTED: same excluded zone as C10-17 (self-cancellation from the group's own argument iterator, then re-use of the name from inside that iterator)",
                "C13/1": "NOT DETECTED: needs flush() awaited from inside a task's own callback; on the unchanged code that call never returns (the task would gather itself), so there is no reference behaviour to compare with and the generators do not go there"}
-MISSED = MISSED10 if ROUND == 10 else MISSED9 if ROUND == 9 else MISSED8 if ROUND == 8 else MISSED7 if ROUND == 7 else MISSED6 if ROUND == 6 else {} if ROUND != 5 else {"C01/1": "the pool generator never assigned pool_size to an empty pool; added the resize_idle step (size assigned while the pool is empty, all C01 oracles continue with the new size)",
+MISSED11 = {"C04/1": "the breakage (a spawner that waits for room is never woken once pool_size has been assigned, because the setter installs a NEW semaphore) needs an assignment while spawners wait - the region of recorded finding F-SIZE, which C04's runs never enter; it is caught by ./check C15 (new oracle waiter_never_woken: after such an assignment, once a task has ended, whoever waited must have been woken), so C15 is listed as the detecting check",
+            "C11/2": "pools were only ever instances of TaskPool / SimpleTaskPool; pools of factory-made subclasses that share one __name__ added",
+            "C15/2": "nothing said that an assignment must not disturb the tasks that are running; end callbacks missing after an assignment are now also a C15 violation (running_task_disturbed)",
+            "C16/2": "the extended class had no parameter with an unhashable annotation; Annotated[int, <eq-only object>] added",
+            "C17/1": "no literal was valid both as Python and as JSON with different meanings; [\"a\\/b\", ...] added",
+            "C18/1": "no junk token named an existing file with non-UTF-8 content behind an '@'; fixture tpsim/fixtures/latin1.txt added",
+            "C19/1": "SimTransport.write_eof() never failed; it now raises ENOTCONN when the peer is already gone and this end has not been told yet, as shutdown(SHUT_WR) does",
+            "C20/2": "only asyncio_taskpool's Queue itself was used; user subclasses mixing in asyncio.PriorityQueue / LifoQueue (either base order) added"}
+MISSED = MISSED11 if ROUND == 11 else MISSED10 if ROUND == 10 else MISSED9 if ROUND == 9 else MISSED8 if ROUND == 8 else MISSED7 if ROUND == 7 else MISSED6 if ROUND == 6 else {} if ROUND != 5 else {"C01/1": "the pool generator never assigned pool_size to an empty pool; added the resize_idle step (size assigned while the pool is empty, all C01 oracles continue with the new size)",
           "C03/2": "callbacks were always closures; added callbacks that are bound methods of an object nothing else refers to (kinds sm/am/gm)",
           "C04/1": "the injected factory failure was always a FactoryError; the exception type now varies (FactoryError, TypeError, ValueError, KeyError, AttributeError)",
           "C04/2": "payload keyword names were always kw_x; added payload shapes whose keyword names coincide with the library's own parameter names (group_name, func, num, end_callback, self, args, kwargs ...)",
